@@ -18,18 +18,24 @@
      vm/jit.rs 639-650 box_handler_c: `this.thread.heap.lock()` with no safepoint
      vm/threads.rs 1062-1151 spawn_native_thread: thread started, THEN registered (lock `threads`
                       inside enter_safepoint); 114-123 thread_join_impl (handle taken, then join)
-   Two switches select the code as it was / as repaired:
+   Three switches select the code as it was / as repaired:
      keep_guard        = false : global updates drop the heap guard immediately (`let _ =`)
-     jit_box_safepoint = false : the native box helper blocks on the heap mutex unpublished *)
+     jit_box_safepoint = false : the native box helper blocks on the heap mutex unpublished
+     spawn_locked      = false : spawn-native-thread starts the thread, then registers it, holding no lock in
+                                 between (before 56291059); true: it takes the heap guard in a safepoint BEFORE it
+                                 copies its state and starts the thread, registers the thread in a second safepoint
+                                 and only then drops the guard (threads.rs spawn_native_thread, stop_the_world_guard) *)
 From Coq Require Import List Arith Lia Bool.
 From SV Require Import c15.Conc.
 Import ListNotations.
 
 Definition tid := nat.
 
-Record config := { keep_guard : bool; jit_box_safepoint : bool }.
-Definition cfg_old : config := {| keep_guard := false; jit_box_safepoint := false |}.
-Definition cfg_fixed : config := {| keep_guard := true; jit_box_safepoint := true |}.
+Record config := { keep_guard : bool; jit_box_safepoint : bool; spawn_locked : bool }.
+Definition cfg_old : config := {| keep_guard := false; jit_box_safepoint := false; spawn_locked := false |}.
+(* the lock discipline repaired, thread creation still unprotected (the tree before 56291059) *)
+Definition cfg_pre_spawn_fix : config := {| keep_guard := true; jit_box_safepoint := true; spawn_locked := false |}.
+Definition cfg_fixed : config := {| keep_guard := true; jit_box_safepoint := true; spawn_locked := true |}.
 
 (* what a script thread does next (one entry per bytecode instruction / built-in call) *)
 Inductive act :=
@@ -66,6 +72,7 @@ Inductive tpc :=
 | LockUnpub                      (* blocked on heap.lock() without a safepoint     jit.rs 642 *)
 | SpPub                          (* inside enter_safepoint: ctx published, closure running / blocked *)
 | SpJoin                         (* inside thread-join!: handle taken, waiting for the thread *)
+| SpReg                          (* spawn, second enter_safepoint (heap guard held): lock `threads`; push; unlock *)
 | SpParked                       (* closure done: while paused { park }            vm.rs 868-882 *)
 | SpExitChecked                  (* paused = false was loaded, ctx not yet retracted   (before 884) *)
 | Held                           (* enter_safepoint returned the heap guard *)
@@ -136,7 +143,7 @@ Definition set_paused (k : tid) (b : bool) (w : world) : world := set_th k (with
 
 (* ctx = Some(ptr) exactly between the two stores *)
 Definition published (p : tpc) : bool :=
-  match p with PollParked | PollExitChecked | SpPub | SpJoin | SpParked | SpExitChecked => true | _ => false end.
+  match p with PollParked | PollExitChecked | SpPub | SpJoin | SpReg | SpParked | SpExitChecked => true | _ => false end.
 
 Definition is_done (p : tpc) : bool := match p with Done => true | _ => false end.
 Definition is_notstarted (p : tpc) : bool := match p with NotStarted => true | _ => false end.
@@ -157,7 +164,7 @@ Definition chan_upd (c : nat) (q : list (tid * nat)) (f : nat -> list (tid * nat
 Definition mem (j : tid) (l : list tid) : bool := existsb (Nat.eqb j) l.
 
 (* the closure run inside enter_safepoint, by action (None = blocked) *)
-Definition sp_closure (t : tid) (w : world) : option world :=
+Definition sp_closure (cfg : config) (t : tid) (w : world) : option world :=
   let x := th w t in
   let s := sh w in
   match head x with
@@ -183,6 +190,12 @@ Definition sp_closure (t : tid) (w : world) : option world :=
       | Some _ => None                               (* heap.lock_arc() blocks — published *)
       end
   | ASpawn j =>
+      if spawn_locked cfg then                       (* first safepoint: heap.lock_arc() *)
+        match heap w with
+        | None => Some (goto t SpParked (set_heap (Some t) w))
+        | Some _ => None
+        end
+      else
       match tmx w with
       | None =>                                      (* lock; push; unlock — one step *)
           let w1 := if is_notstarted (pc (th w j)) then w else set_th j (with_reg true (th w j)) w in
@@ -250,13 +263,15 @@ Definition wstep (cfg : config) (t : tid) (w : world) : option world :=
         | ACompute => Some (set_th t (pop x) w)
         | AAllocJit _ => if jit_box_safepoint cfg then Some (goto t SpPub w) else Some (goto t LockUnpub w)
         | ASpawn j =>
+            if spawn_locked cfg then Some (goto t SpPub w)      (* nothing is started before the guard is held *)
+            else
             let w1 := if is_notstarted (pc (th w j)) then goto j Run w else w in
             Some (goto t SpPub w1)
         | _ => Some (goto t SpPub w)
         end
     | LockUnpub =>
         match heap w with None => Some (goto t Held (set_heap (Some t) w)) | Some _ => None end
-    | SpPub => sp_closure t w
+    | SpPub => sp_closure cfg t w
     | SpJoin =>
         match head x with
         | AJoin j =>
@@ -267,15 +282,41 @@ Definition wstep (cfg : config) (t : tid) (w : world) : option world :=
             else None                                (* JoinHandle::join blocks: script logic *)
         | _ => Some (set_th t (pop x) w)             (* unreachable: SpJoin is entered from AJoin only *)
         end
+    | SpReg =>
+        match head x with
+        | ASpawn j =>
+            match tmx w with
+            | None =>                                (* lock; push; unlock — one step *)
+                let w1 := if is_notstarted (pc (th w j)) then w else set_th j (with_reg true (th w j)) w in
+                Some (goto t SpParked w1)
+            | Some _ => None
+            end
+        | _ => Some (goto t Rel w)                   (* unreachable: SpReg is entered from ASpawn only *)
+        end
     | SpParked => if paused x then None else Some (goto t SpExitChecked w)
     | SpExitChecked =>
-        if lock_act (head x) then Some (goto t Held w) else Some (set_th t (pop x) w)
+        match head x with
+        | ASpawn j =>
+            if spawn_locked cfg then
+              (* first safepoint left (thread j not started yet): go on holding the guard;
+                 second safepoint left (j started and registered), or j was started before: drop the guard *)
+              if is_notstarted (pc (th w j)) then Some (goto t Held w) else Some (goto t Rel w)
+            else Some (set_th t (pop x) w)
+        | a => if lock_act a then Some (goto t Held w) else Some (set_th t (pop x) w)
+        end
     | Held =>
+        match head x with
+        | ASpawn j =>                                (* state copied, std::thread::spawn: j runs, unregistered *)
+            Some (goto t SpReg (if is_notstarted (pc (th w j))
+                                then set_th j (with_seen (seen x) (with_pc Run (th w j))) w   (* j gets a copy of t's table *)
+                                else w))
+        | _ =>
         if stw_act (head x) then
           if is_update (head x) && negb (keep_guard cfg)
           then Some (goto t (Stw SOwnFlag) (set_heap None w))     (* `let _ = ...`: guard dropped *)
           else Some (goto t (Stw SOwnFlag) w)
         else Some (goto t Rel w)
+        end
     | Stw s => stw_step t s w
     | Rel =>
         let w1 := if owns (heap w) t then set_heap None w else w in
@@ -321,7 +362,7 @@ Definition stuck (cfg : config) (w : world) : Prop := forall t, wstep cfg t w = 
 (* C15: while a stopper reads / replaces thread k's state, k is parked or inside a primitive and
    cannot leave before the stopper's resume (its pause flag is set) *)
 Definition safe_to_access (x : thd) : bool :=
-  match pc x with PollParked | SpPub | SpJoin | SpParked => paused x | _ => false end.
+  match pc x with PollParked | SpPub | SpJoin | SpReg | SpParked => paused x | _ => false end.
 
 Definition Excl15 (w : world) : Prop :=
   forall s p k, pc (th w s) = Stw (SAccess p k) -> safe_to_access (th w k) = true.
@@ -359,4 +400,4 @@ Definition covered (s : spc) (t : tid) : bool :=
 
 (* a window-free run with a spawn, a global update and the stopper's accesses (non-vacuity of the C15 theorems) *)
 Definition wf_progs : list (list act) := [[ASpawn 1; AUpdate; AAlloc true]; [ACompute; APrim; ACompute; ACompute]].
-Definition wf_sched : list tid := repeat 0 5 ++ repeat 0 12 ++ [1;1;1] ++ repeat 0 12.
+Definition wf_sched : list tid := repeat 0 10 ++ repeat 0 12 ++ [1;1;1] ++ repeat 0 12.
